@@ -73,24 +73,39 @@ def run(ctx):
         if must and dec != enc(mu, M):
             ctx.report('decrypt-wrong', '%s LWE ciphertext, n=%d Msize=%d message %d: decrypts to %d instead of %d (phase error %s units, threshold 2^31/Msize = %d)' % (
                 kind, n, M, mu, dec, enc(mu, M), e if e is not None else vlib.w32(ph - enc(mu, M)), 2**31 // M), {'case': l[:10000], 'kind': kind, 'message': mu, 'decrypted': dec, 'expected': enc(mu, M)})
-    # ---- TLWE
+    # ---- TLWE: all decryptions of all keys run in ONE process, keys alternating ("every key": the result must not depend on
+    #      which key the process decrypted with before; key objects are created and destroyed per case by the harness)
+    tjobs = []; tkeys = {}
     for k in (1, 2):
-        tk = [rng.randrange(2) for _ in range(k * N)]
-        for M in ([8, 5, 1000] if not thorough else [2, 3, 5, 8, 64, 1000, 32768]):
-            a_units = min(2**40 // (20 * M), 2**35)
-            msg = [enc(rng.randrange(M), M) for _ in range(N)]
-            line, r = E.lib(6, [k, N] + tk + msg, sd + 7 * M + k, rng.randrange(10), a_units, 0); ctx.count(('tlwe', k, M))
-            if r is None: ctx.report('tlwe-encrypt-crash', 'tLweSymEncrypt died', {'case': line[:1000]}); continue
-            d = vlib.run_lines(exe, ['enc 8 0 0 0 0 %d %d %s %s %d' % (k, N, fmt(tk), fmt(r['res']), M)])[0].split()
-            dec = [int(x) for x in d[2:2 + N]]
-            md = ints(vlib.run_model(['enc 8 %d %d %s %s %d' % (k, N, fmt(tk), fmt(r['res']), M)], 'fast')[0])
-            if dec != msg: ctx.report('tlwe-decrypt-wrong', 'tLweSymDecrypt k=%d Msize=%d: %d of %d coefficients differ from the message' % (k, M, sum(1 for x, y in zip(dec, msg) if x != y), N), {'k': k, 'Msize': M, 'case': line[:2000]})
-            if md != msg: ctx.soft('correspondence:tlwe-decrypt', 'model tlwe decryption differs from the message', {'k': k, 'Msize': M})
-            mu = rng.randrange(M)
-            line, r = E.lib(7, [k, N] + tk + [enc(mu, M)], sd + 11 * M + k, 0, a_units, 0); ctx.count(('tlweT', k, M))
-            if r is None: continue
-            d = vlib.run_lines(exe, ['enc 9 0 0 0 0 %d %d %s %s %d' % (k, N, fmt(tk), fmt(r['res']), M)])[0].split()
-            if int(d[2]) != enc(mu, M): ctx.report('tlweT-decrypt-wrong', 'tLweSymDecryptT k=%d Msize=%d message %d: got %s' % (k, M, mu, d[2]), {'k': k, 'Msize': M, 'mu': mu})
+        tkeys[k] = [[rng.randrange(2) for _ in range(k * N)] for _ in range(2 if not thorough else 4)]
+        for ki, tk in enumerate(tkeys[k]):
+            for M in ([8, 5, 1000] if not thorough else [2, 3, 5, 8, 64, 1000, 32768]):
+                a_units = min(2**40 // (20 * M), 2**35)
+                msg = [enc(rng.randrange(M), M) for _ in range(N)]
+                line, r = E.lib(6, [k, N] + tk + msg, sd + 7 * M + k + 100 * ki, rng.randrange(10), a_units, 0); ctx.count(('tlwe', k, ki, M))
+                if r is None: ctx.report('tlwe-encrypt-crash', 'tLweSymEncrypt died', {'case': line[:1000]}); continue
+                tjobs.append(('poly', k, ki, M, msg, 'enc 8 0 0 0 0 %d %d %s %s %d' % (k, N, fmt(tk), fmt(r['res']), M)))
+                mu = rng.randrange(M)
+                line, r = E.lib(7, [k, N] + tk + [enc(mu, M)], sd + 11 * M + k + 100 * ki, 0, a_units, 0); ctx.count(('tlweT', k, ki, M))
+                if r is None: continue
+                tjobs.append(('const', k, ki, M, [enc(mu, M)], 'enc 9 0 0 0 0 %d %d %s %s %d' % (k, N, fmt(tk), fmt(r['res']), M)))
+    rng.shuffle(tjobs); tjobs = tjobs + tjobs[:3]          # and the first ones once more, after all the others
+    tio = vlib.run_lines(exe, [j[5] for j in tjobs], timeout=3600)
+    tmo = vlib.run_model([j[5].replace(' 0 0 0 0', '', 1) for j in tjobs], 'fast', timeout=3600)
+    for pos, ((kind, k, ki, M, msg, dline), o, m) in enumerate(zip(tjobs, tio, tmo)):
+        ctx.count(('tlwe-dec', pos, dline[:3000]))
+        if o.startswith('CRASH'): ctx.report('tlwe-decrypt-crash', 'tLweSymDecrypt k=%d Msize=%d died (position %d of the sequence)' % (k, M, pos), {'sequence': [j[5] for j in tjobs[:pos + 1]]}); continue
+        dec = [int(x) for x in o.split()[2:2 + len(msg)]]
+        if dec != msg:
+            alone = [int(x) for x in vlib.run_lines(exe, [dline])[0].split()[2:2 + len(msg)]]
+            hist = '; the same decryption alone in a fresh process is %s' % ('right: the result depends on the keys used before in the process' if alone == msg else 'wrong too')
+            ctx.report('tlwe-decrypt-wrong', 'tLweSymDecrypt%s k=%d key #%d Msize=%d (position %d of %d decryptions under alternating keys in one process): %d of %d coefficients differ from the message%s' % (
+                'T' if kind == 'const' else '', k, ki, M, pos, len(tjobs), sum(1 for x, y in zip(dec, msg) if x != y), len(msg), hist), {'k': k, 'Msize': M, 'sequence': [j[5] for j in tjobs[:pos + 1]], 'message': msg[:16]})
+            break
+        if ints(m)[:len(msg)] != msg: ctx.soft('correspondence:tlwe-decrypt', 'model tlwe decryption differs from the message', {'k': k, 'Msize': M})
+    gjobs = []
+    for k in (1, 2):
+      for tk in tkeys[k][:2]:
         # ---- TGSW: Msize a power of two <= Bg, |m| < Msize/2
         for (l, B) in ([(3, 7), (2, 10)] if not thorough else [(3, 7), (2, 10), (4, 8), (2, 16)]):
             for M in sorted({2, 4, 1 << B, 1 << (B // 2 + 1)}):
@@ -98,11 +113,21 @@ def run(ctx):
                 if M == 2: m = [rng.randrange(2) if rng.random() < 0.05 else 0 for _ in range(N)]
                 line, r = E.lib(11, [k, N, l, B] + tk + m, sd + 13 * M + l, 0, 32768, 0); ctx.count(('tgsw', k, l, B, M))
                 if r is None: ctx.report('tgsw-encrypt-crash', 'tGswSymEncrypt died', {'case': line[:1000]}); continue
-                dline = 'tgsw 4 %d %d %d %d %s %s %d' % (k, N, l, B, fmt(r['res']), fmt(tk), M)
-                dec = ints(vlib.run_lines(bexe, [dline])[0]); md = ints(vlib.run_model([dline], 'fast')[0])
-                want = [x % M for x in m]
-                if dec != want: ctx.report('tgsw-decrypt-wrong', 'tGswSymDecrypt k=%d (l,B)=(%d,%d) Msize=%d: %d coefficients differ from the message' % (k, l, B, M, sum(1 for x, y in zip(dec, want) if x != y)), {'case': dline[:3000], 'Msize': M})
-                if md != want: ctx.soft('correspondence:tgsw-decrypt', 'model TGSW decryption differs from the message (k=%d (l,B)=(%d,%d) Msize=%d)' % (k, l, B, M), {'Msize': M})
+                gjobs.append((k, l, B, M, [x % M for x in m], 'tgsw 4 %d %d %d %d %s %s %d' % (k, N, l, B, fmt(r['res']), fmt(tk), M)))
+    rng.shuffle(gjobs)
+    if not thorough: gjobs = gjobs[:12]
+    gjobs = gjobs + gjobs[:2]
+    gio = vlib.run_lines(bexe, [j[5] for j in gjobs], timeout=3600)
+    gmo = vlib.run_model([j[5] for j in gjobs], 'fast', timeout=3600)
+    for pos, ((k, l, B, M, want, dline), o, md) in enumerate(zip(gjobs, gio, gmo)):
+        ctx.count(('tgsw-dec', pos, dline[:3000]))
+        if o.startswith('CRASH'): ctx.report('tgsw-decrypt-crash', 'tGswSymDecrypt died', {'sequence': [j[5] for j in gjobs[:pos + 1]]}); continue
+        dec = ints(o)
+        if dec != want:
+            alone = ints(vlib.run_lines(bexe, [dline])[0])
+            ctx.report('tgsw-decrypt-wrong', 'tGswSymDecrypt k=%d (l,B)=(%d,%d) Msize=%d (position %d of %d decryptions under alternating keys in one process): %d coefficients differ from the message; alone in a fresh process it is %s' % (
+                k, l, B, M, pos, len(gjobs), sum(1 for x, y in zip(dec, want) if x != y), 'right' if alone == want else 'wrong too'), {'sequence': [j[5] for j in gjobs[:pos + 1]], 'Msize': M}); break
+        if ints(md) != want: ctx.soft('correspondence:tgsw-decrypt', 'model TGSW decryption differs from the message (k=%d (l,B)=(%d,%d) Msize=%d)' % (k, l, B, M), {'Msize': M})
     # ---- gate API
     for lam in (128, 80):
         spec = fmt([lam, 0, 0, 0, 0, 0, 0, 0, 0, ctx.seed * 10 + 5])
@@ -118,6 +143,11 @@ def run(ctx):
 
 def replay(ctx, data):
     exe = vlib.build_harness('enc_drv.cpp', vlib.build_lib('optim'), 'spqlios-fma', 'optim')
+    if 'sequence' in data:
+        drv = vlib.build_harness('boot_drv.cpp', vlib.build_lib('optim'), 'spqlios-fma', 'optim') if data['sequence'][0].startswith('tgsw') else exe
+        o = vlib.run_lines(drv, data['sequence'], timeout=600)[-1]
+        print('last of %d decryptions in one process: implementation now returns %s ...; message %s ...' % (len(data['sequence']), o.split()[:10], data.get('message')))
+        return 0
     if 'case' not in data or not data['case'].startswith('enc'): print(json.dumps(data, indent=1)[:2000]); return 0
     o = vlib.run_lines(exe, [data['case']], timeout=600)[0]
     print('case: %s ...\nimplementation now: %s\nrecorded: %s' % (data['case'][:120], o[:200], {k: data[k] for k in data if k in ('phase', 'decrypted', 'expected', 'message', 'kind')}))
